@@ -117,7 +117,7 @@ class Shadow:
         return {"calls": dict(self.calls), "compared": dict(self.compared), "divergences": self.div, "divergence_counts": dict(self.div_count)}
 
 
-def probe_client(project, rng) -> int:
+def probe_client(project, rng, dense: bool = False) -> int:
     """Seeded client that queries the paired public functions near their edges (the running system rarely
     goes there by itself).  Returns the number of probes issued; outcomes are judged by the shadow monitor."""
     from datetime import timedelta
@@ -191,7 +191,7 @@ def probe_client(project, rng) -> int:
                 seen.add(id(w))
                 for wd in range(7):
                     quiet(lambda w=w, wd=wd: w.get_daily_hours(wd))
-                step = max(1, (7 * 86400 // gran) // 400)
+                step = 1 if dense else max(1, (7 * 86400 // gran) // 400)
                 off = rng.randrange(0, step)
                 for slot in range(off, min(size, 7 * 86400 // gran + 1), step):
                     for tz in (None, "Asia/Tokyo", "America/New_York"):
